@@ -148,6 +148,41 @@ def flows_to_visitor(body, start, visitors, file=None):
     return False
 
 
+def loops_cut_short(body, child):
+    """`for` loops over (an alias of) `child` inside `body` that can stop before the last element: a `break` of that loop
+    or a `return` in its body (`?` is the error exit and is not counted).  returns (number of loops, [descriptions])"""
+    reach = alias_closure(body, child)
+    n, out = 0, []
+
+    def exits(node, depth0=True):
+        found = []
+        for k, v in node.items():
+            if k in ("k", "line"):
+                continue
+            for x in (v if isinstance(v, list) else [v]):
+                if not isinstance(x, dict) or "k" not in x:
+                    continue
+                if x["k"] in ("Closure", "ItemStmt"):
+                    continue
+                if x["k"] == "Return":
+                    found.append("return")
+                elif x["k"] == "Break" and depth0:
+                    found.append("break")
+                if x["k"] in ("For", "While", "Loop"):
+                    found += [e for e in exits(x, False)]
+                else:
+                    found += exits(x, depth0)
+        return found
+
+    for lp in walk(body):
+        if lp["k"] == "For" and ({p_["path"] for p_ in walk(lp["iter"]) if p_["k"] == "Path"} & reach):
+            n += 1
+            ex = exits(lp["body"])
+            if ex:
+                out.append("the loop over `%s` (line %s) can stop early: %s" % (render(lp["iter"])[:40], lp.get("line"), sorted(set(ex))))
+    return n, out
+
+
 def check(ctx, R, file, fn_name, qual, enum_file, enum_name, visitors, scrutinee=None, skip_variants=(), allow_unvisited=()):
     """allow_unvisited: {(Variant, field)} reviewed exceptions"""
     fn = find_fn(file, fn_name, qual)
@@ -204,6 +239,9 @@ def check(ctx, R, file, fn_name, qual, enum_file, enum_name, visitors, scrutinee
                     continue
                 ok = flows_to_visitor(arm["body"], binds[f], visitors, file)
                 ctx.check(R, k, ok, "child `%s` (bound as `%s`) does not flow into %s" % (f, binds[f], "/".join(sorted(visitors))), site(file, arm))
+                nl, cut = loops_cut_short(arm["body"], binds[f])
+                if nl:
+                    ctx.check(R, k.replace("/visited", "/every-element"), not cut, "; ".join(cut) or "loops over the child run to the end", site(file, arm))
     for vn in en:
         if vn not in seen and vn not in skip_variants:
             ctx.bad(R, "%s/%s/arm-missing" % (key0, vn), "no arm for variant " + vn)
